@@ -18,7 +18,7 @@ def analyse_with_values(text, scratch):
     from jug.backends.dict_store import dict_store
     s = dict_store()
     tasks, space = sched.load_jugfile(P['path'], s)
-    index, order = sched.index_tasks(tasks)
+    index, order = sched.index_tasks(tasks, P['index'])
     for t in tasks:
         t.store = s
     vals = []
@@ -210,6 +210,53 @@ def real_invalidate_shell(P, be, target_indices):
         with contextlib.redirect_stdout(io.StringIO()):
             for i in target_indices:
                 sh.invalidate(tasks, reverse, byhash[P['hashes'][i]])
+        try:
+            store.close() if be.kind != 'dict' else None
+        except Exception:
+            pass
+    finally:
+        reset_jug()
+
+
+def real_shell_session(P, be, root_lists):
+    """one interactive session (one shared reverse-edge table, as in `jug shell`): invalidate the first roots, recompute what is missing, invalidate the
+    next roots, ... - the store is observed after the last invalidation"""
+    import jug.subcommands.shell as sh
+    import contextlib
+    reset_jug()
+    try:
+        s = be.store()
+        jug.task.Task.store = s
+        store, space = jug.jug.init(P['path'], store=s)
+        tasks = list(jug.task.alltasks)
+        for t in tasks:
+            t.store = s
+        reverse = {}
+        byhash = {}
+        for t in tasks:
+            byhash.setdefault(t.hash(), t)
+        with contextlib.redirect_stdout(io.StringIO()):
+            for k, roots in enumerate(root_lists):
+                if k:
+                    # recompute, as the user of the shell (or an execute in another terminal) would
+                    pending = [t for t in tasks if not t.can_load()]
+                    for _ in range(len(pending) + 1):
+                        rest = []
+                        for t in pending:
+                            if t.can_load():
+                                continue
+                            if t.can_run():
+                                t.unload()
+                                t.run()
+                            else:
+                                rest.append(t)
+                        pending = rest
+                        if not pending:
+                            break
+                    for t in tasks:
+                        t.unload()
+                for i in roots:
+                    sh.invalidate(tasks, reverse, byhash[P['hashes'][i]])
         try:
             store.close() if be.kind != 'dict' else None
         except Exception:
